@@ -247,7 +247,8 @@ def _tensor_contract_single(arr, i, j):
     idxs = np.arange(arr.shape[i])
     sl = tuple(slice(None, None, None) if idx not in (i, j) else idxs
                for idx in range(arr.ndim))
-    contract_at = i if j == i + 1 else 0
+    # Adjacent advanced indices, in either order, leave the new axis in place.
+    contract_at = min(i, j) if abs(i - j) == 1 else 0
     return np.sum(arr[sl], axis=contract_at)
 
 
